@@ -264,14 +264,12 @@ Proof.
     + destruct (denote p rho) as [b|] eqn:Ed; [|discriminate].
       destruct ((k <? 0)%Z || (RANGE_LIMIT <? k)%Z) eqn:El; [discriminate|]. inversion Hd; subst.
       rewrite total_repeat, (IHp rho b vb Hwf Ed Eb), Hk. rewrite Z2Nat.id by lia. reflexivity.
-  - (* For *) cbn [wf] in Hwf. apply andb_prop in Hwf as (_ & Hwf). apply andb_prop in Hwf as (Hfv & Hwf).
-    apply andb_prop in Hfv as (Hfv & Fs). apply andb_prop in Hfv as (Fa & _).
-    apply negb_true_iff in Fa, Fs.
+  - (* For *) cbn [wf] in Hwf. apply andb_prop in Hwf as (_ & Hwf).
     rewrite denote_For in Hd. destruct (as_int (eval rho a)) as [za|] eqn:Ea; [|discriminate].
     destruct (as_int (eval rho o)) as [zo|] eqn:Eo; [|discriminate]. destruct (as_int (eval rho s)) as [zs|] eqn:Es; [|discriminate].
     destruct (py_range za zo zs) as [ks|] eqn:Er; [|discriminate].
     cbn [duration_expr] in Hv.
-    destruct (for_closed_form rho i a o s (duration_expr p) za zo zs ks v Ea Eo Es Fa Fs Er Hv) as (w & Ew & Hw).
+    destruct (for_closed_form rho i a o s (duration_expr p) za zo zs ks v Ea Eo Es Er Hv) as (w & Ew & Hw).
     rewrite Hw. clear Hw Hv Er. revert pcs w Hd Ew. induction ks as [|k ks IH]; intros pcs w Hd Ew.
     + inversion Hd. inversion Ew. reflexivity.
     + rewrite den_for_cons in Hd. destruct (denote p (env_upd rho i (Some (inject_Z k)))) as [x|] eqn:Ex; [|discriminate].
